@@ -216,6 +216,9 @@ impl Default for GenCfg {
 pub const KEYS: [&str; 6] = ["a", "b", "c", "k", "a-b", "0"];
 pub const STR_LITS: [&str; 5] = ["a", "b", "c", "a-b", ""];
 pub const NUM_LITS: [&str; 5] = ["0", "1", "2", "-1", "1.5"];
+/// literal chunks of template literal types: plain text first, then every regular-expression metacharacter
+/// (the emitted validator is a regex built from the chunks)
+pub const TPL_LITS: [&str; 14] = ["a", "-", "x.", "(b)", "a|b", "$", "[k]", "a+", "^", "\\d", "{2}", "?", "*", "/"];
 pub const DEF_NAMES: [&str; 4] = ["Alpha", "Beta", "Gamma", "Delta"];
 
 struct G<'c> {
@@ -299,11 +302,11 @@ impl<'c> G<'c> {
         for _ in 0..n {
             let p = match s.below(6) {
                 0 => TplPart::Str,
-                1 => TplPart::Lit(s.pick(&["a", "-", "x.", "(b)"]).to_string()),
+                1 => TplPart::Lit(s.pick(&TPL_LITS).to_string()),
                 2 => TplPart::Num,
                 3 => TplPart::Bool,
                 4 => TplPart::OneOf(vec!["a".into(), "b".into()]),
-                _ => TplPart::Lit(s.pick(&["a", "-", "x.", "(b)"]).to_string()),
+                _ => TplPart::Lit(s.pick(&TPL_LITS).to_string()),
             };
             // no two adjacent literals (they would be one quasi)
             if let (Some(TplPart::Lit(_)), TplPart::Lit(_)) = (parts.last(), &p) {
